@@ -1,5 +1,6 @@
 import Carquet.Proofs.Writer
 import Carquet.Proofs.WriterLayout
+import Carquet.Proofs.WriterPages
 import Carquet.Impl.FileReal
 /-
 C05 (envelope part) — every file the writer reports complete has the Parquet envelope.
@@ -7,7 +8,7 @@ Statements only; lemmas in Proofs/Writer.lean.  Generic in the byte-level compon
 (`Deps`), hence in particular for the real ones (`Impl.FileReal.deps`).
 -/
 namespace Carquet.Properties.C05
-open Carquet.Impl.Writer Carquet.Proofs.Writer Carquet.Proofs.WriterLayout
+open Carquet.Impl.Writer Carquet.Proofs.Writer Carquet.Proofs.WriterLayout Carquet.Proofs.WriterPages
 
 /-- For every schema, options and write history (any batches, any row-group boundaries, also
 calls that failed in between): if `carquet_writer_close` returns OK, the stream received
@@ -72,6 +73,38 @@ theorem C05_chunks_tile (D : Deps) (cols : List Col) (codec pageSize : Nat) (cre
   · simpa using k1.trans f1
   · simpa using k2.trans f2
   · have := c2; rw [hrest] at this; simp [List.flatten_cons, magic] at this; simp; omega
+
+/-- For every schema, options and history: if close returns OK, the data region of the file
+is, row group by row group and chunk by chunk, a concatenation of pages
+`pageHeader(|body|, |stored|, crc32(stored), rows, stats) ++ stored` with
+`stored = compress(codec, body)` (`PageRec.bytes`, `PageOk`): the sizes in each header are the
+lengths of the bytes that follow and of what they decompress from, the CRC in the header is the
+CRC-32 of exactly the stored page bytes, no page is empty; and every chunk's metadata are the sums
+over its pages (`ChunkPages`: `num_values` = Σ rows, `total_compressed_size` = Σ |header ++ stored|,
+`total_uncompressed_size` = Σ |body|, the codec tag is the writer's).  The same metadata `md`
+tile the region (`GroupsAt`, as in `C05_chunks_tile`). -/
+theorem C05_pages_chain (D : Deps) (cols : List Col) (codec pageSize : Nat) (createdBy : String)
+    (ops : List Op)
+    (hok : (fileOf D cols codec pageSize createdBy ops).2.getLast? = some .ok) :
+    ∃ (md : FooterData) (gs : List (List (List PageRec))),
+      (fileOf D cols codec pageSize createdBy ops).1 =
+        magic ++ dataBytes D gs ++ D.footer md ++ le32 (D.footer md).length ++ magic ∧
+      GroupsAt md.rowGroups 4 ∧ AllGroups D codec md.rowGroups gs := by
+  unfold fileOf writesOf at hok ⊢
+  have hinit := allInv_init cols codec pageSize createdBy
+  obtain ⟨r1, r2⟩ := run_eq_close D ops { cols := cols, codec := codec, pageSize := pageSize, createdBy := createdBy } []
+  simp only at hok ⊢
+  rw [r2] at hok
+  have hok' := Option.some.inj hok
+  have hA := allInv_stateAfter D ops _ hinit
+  have hP := pinv_closing D codec _ (pinv_stateAfter D codec ops _ (pinv_init D cols codec pageSize createdBy) hinit) hA
+  obtain ⟨c1, _, c3⟩ := close_layout D _ hA hok'
+  have hh : (closing D (stateAfter D { cols := cols, codec := codec, pageSize := pageSize, createdBy := createdBy } ops)).headerWritten = true := by
+    unfold closing; rw [flushRowGroup_header]; exact (allInv_ensureHeader _ hA).2
+  obtain ⟨_, ⟨gs, g1, g2⟩, _⟩ := hP
+  rw [r1, c1, g1 hh]
+  generalize closing D (stateAfter D { cols := cols, codec := codec, pageSize := pageSize, createdBy := createdBy } ops) = W' at *
+  exact ⟨⟨W'.cols, W'.createdBy, W'.totalRows, W'.rowGroups⟩, gs, by simp [footerOf, List.append_assoc], c3, g2⟩
 
 /-- the same for the real components -/
 theorem C05_envelope_real (cols : List Col) (codec pageSize : Nat) (ops : List Op)
